@@ -65,7 +65,20 @@ AUTOS = [0, 1, 10, 100, 1000, 5000]
 def structural(res, what, sig, fit, rfi, one, check_model=True):
     std_crv, beads_model, params = fit[0], fit[1], fit[2]
     xs = np.array([1e-3, 0.5, 1.0, 7.0, 123.4, 1e4, 3e6])
+    # the fitted parameters as reported when the fit returns; evaluating the returned functions (in any order) must change neither
+    # the parameters nor each other's answers
+    p_ret = [float(x) for x in params]
+    bm_first = np.asarray(beads_model(xs), dtype=float) if check_model else None
     pos = np.asarray(std_crv(xs), dtype=float)
+    if [float(x) for x in fit[2]] != p_ret:
+        res.violation(sig + ':parameters-changed', '%s: evaluating the standard curve changed the reported parameters from %r to %r' % (what, p_ret, [float(x) for x in fit[2]]), one)
+        return False
+    if check_model:
+        bm_again = np.asarray(beads_model(xs), dtype=float)
+        if bm_again.tobytes() != bm_first.tobytes():
+            res.violation(sig + ':model-history', '%s: beads_model(x) gives %s before and %s after the standard curve has been evaluated' % (what, bm_first.tolist()[:3], bm_again.tolist()[:3]), one)
+            return False
+    params = p_ret
     neg = np.asarray(std_crv(-xs), dtype=float)
     if not np.all(np.isfinite(pos)) or not np.array_equal(neg, -pos):
         res.violation(sig + ':not-odd', '%s: std_crv(-x) != -std_crv(x): %s vs %s' % (what, neg.tolist()[:3], pos.tolist()[:3]), one)
